@@ -106,7 +106,8 @@ pub fn decode_refs(s: &[char]) -> Result<String, String> {
 }
 
 /// Where a `<script>` element's content ends. `start` = index just after the `>` of the start tag.
-/// Returns (content_end, index after the end tag's `>`), or Err when the input ends inside the element.
+/// Returns (content_end, index after the end tag's `>`); when the input ends inside the element both are
+/// `s.len()` (the tokenizer emits end-of-file there, the element swallows the rest of the page).
 pub fn script_data_end(s: &[char], start: usize) -> Result<(usize, usize), String> {
     #[derive(Clone, Copy, PartialEq, Debug)]
     enum St {
@@ -143,7 +144,7 @@ pub fn script_data_end(s: &[char], start: usize) -> Result<(usize, usize), Strin
                     i += 1;
                 }
                 Some(_) => i += 1,
-                None => return Err("end of input inside script data".into()),
+                None => return Ok((s.len(), s.len())),
             },
             St::Lt => match c {
                 Some('/') => {
@@ -208,7 +209,7 @@ pub fn script_data_end(s: &[char], start: usize) -> Result<(usize, usize), Strin
                     i += 1;
                 }
                 Some(_) => i += 1,
-                None => return Err("end of input inside escaped script data".into()),
+                None => return Ok((s.len(), s.len())),
             },
             St::EscDash => match c {
                 Some('-') => {
@@ -224,7 +225,7 @@ pub fn script_data_end(s: &[char], start: usize) -> Result<(usize, usize), Strin
                     st = St::Esc;
                     i += 1;
                 }
-                None => return Err("end of input inside escaped script data".into()),
+                None => return Ok((s.len(), s.len())),
             },
             St::EscDashDash => match c {
                 Some('-') => i += 1,
@@ -241,7 +242,7 @@ pub fn script_data_end(s: &[char], start: usize) -> Result<(usize, usize), Strin
                     st = St::Esc;
                     i += 1;
                 }
-                None => return Err("end of input inside escaped script data".into()),
+                None => return Ok((s.len(), s.len())),
             },
             St::EscLt => match c {
                 Some('/') => {
@@ -280,7 +281,7 @@ pub fn script_data_end(s: &[char], start: usize) -> Result<(usize, usize), Strin
                     i += 1;
                 }
                 Some(_) => i += 1,
-                None => return Err("end of input inside double-escaped script data".into()),
+                None => return Ok((s.len(), s.len())),
             },
             St::DblDash => match c {
                 Some('-') => {
@@ -295,7 +296,7 @@ pub fn script_data_end(s: &[char], start: usize) -> Result<(usize, usize), Strin
                     st = St::Dbl;
                     i += 1;
                 }
-                None => return Err("end of input inside double-escaped script data".into()),
+                None => return Ok((s.len(), s.len())),
             },
             St::DblDashDash => match c {
                 Some('-') => i += 1,
@@ -311,7 +312,7 @@ pub fn script_data_end(s: &[char], start: usize) -> Result<(usize, usize), Strin
                     st = St::Dbl;
                     i += 1;
                 }
-                None => return Err("end of input inside double-escaped script data".into()),
+                None => return Ok((s.len(), s.len())),
             },
             St::DblLt => match c {
                 Some('/') => {
@@ -360,7 +361,8 @@ fn raw_end(s: &[char], start: usize, name: &str) -> Result<(usize, usize), Strin
         }
         i += 1;
     }
-    Err(format!("end of input inside <{name}>"))
+    let _ = name;
+    Ok((s.len(), s.len()))
 }
 
 /// Attribute list starting at `i` (just after the tag name). Returns (attrs, self_closing, index after `>`).
@@ -371,7 +373,7 @@ fn attributes(s: &[char], mut i: usize) -> Result<(Vec<(String, String)>, bool, 
             i += 1;
         }
         match s.get(i) {
-            None => return Err("end of input inside a tag".into()),
+            None => return Ok((attrs, false, s.len())), // eof-in-tag: the tag is dropped by browsers; the skeleton comparison still sees the page cut short
             Some('>') => return Ok((attrs, false, i + 1)),
             Some('/') => {
                 if s.get(i + 1) == Some(&'>') {
@@ -412,7 +414,7 @@ fn attributes(s: &[char], mut i: usize) -> Result<(Vec<(String, String)>, bool, 
                         i += 1;
                     }
                     if i >= s.len() {
-                        return Err("end of input inside an attribute value".into());
+                        return Ok((attrs, false, s.len()));
                     }
                     value = decode_refs(&s[st..i])?;
                     i += 1;
@@ -542,7 +544,9 @@ pub fn tokenize(s: &[char]) -> Result<Vec<Tok>, String> {
                     let raw: String = s[i..ce].iter().collect();
                     let decoded = if kind == TextKind::Rcdata { decode_refs(&s[i..ce])? } else { raw.clone() };
                     out.push(Tok::Text { raw, decoded, kind, start: i, end: ce });
-                    out.push(Tok::End { name });
+                    if ce < s.len() {
+                        out.push(Tok::End { name });
+                    }
                     i = after;
                 }
                 text_start = i;
@@ -597,7 +601,7 @@ mod tests {
         assert_eq!(script_len("<!--<script>x</script>y</script>"), 23);
         // `-->` leaves the escaped states
         assert_eq!(script_len("<!--<script>-->x</script>"), 16);
-        assert!(script_data_end(&cs("<!--<script>x</script>"), 0).is_err());
+        assert_eq!(script_data_end(&cs("<!--<script>x</script>"), 0).unwrap(), (22, 22));
     }
     #[test]
     fn refs() {
